@@ -757,7 +757,34 @@ func (w *World) produce(parent *blockRec, slot uint64) (*blockRec, error) {
 		}
 		if len(idx) > 0 {
 			sort.Ints(idx)
+			// sometimes each vote also carries a signer that is not in the other one: only the
+			// intersection is slashable
+			extras := [2][]int{}
+			if w.rng.Bool() {
+				for k := 0; k < 2; k++ {
+					for tries := 0; tries < 6; tries++ {
+						v := w.rng.Intn(w.cfg.Validators)
+						ok := !w.slashedV[v] && !busy[v] && v != int(proposer)
+						for _, x := range idx {
+							if x == v {
+								ok = false
+							}
+						}
+						if k == 1 && len(extras[0]) > 0 && extras[0][0] == v {
+							ok = false
+						}
+						if ok {
+							extras[k] = []int{v}
+							break
+						}
+					}
+				}
+			}
+			which := 0
 			mk := func(tag uint64) phase0.IndexedAttestation {
+				idx := append(append([]int(nil), idx...), extras[which]...)
+				which++
+				sort.Ints(idx)
 				src, _ := st.CurrentJustifiedCheckpoint()
 				d := phase0.AttestationData{Slot: common.Slot(slot), Index: 0, BeaconBlockRoot: fnvRoot("as", tag), Source: src, Target: common.Checkpoint{Epoch: common.Epoch(epoch), Root: fnvRoot("as-t", tag)}}
 				dom := domainFor(fork, w.gvr, common.DOMAIN_BEACON_ATTESTER, common.Epoch(epoch))
